@@ -353,7 +353,7 @@ HEADER = ("From Coq Require Import String List ZArith NArith Bool.\n"
           "Set Printing Width 1000000.\nSet Printing Depth 1000000.\n")
 
 
-def coq_verdicts(run, pairs, tag="mc", shard_cases=250, par=6, extra_defs="", fn="mismatches", cert=None, guard="pair_guard", gen=None):
+def coq_verdicts(run, pairs, tag="mc", shard_cases=250, par=6, extra_defs="", fn="mismatches", cert=None, guard="pair_guard", gen=None, masks=None):
     """returns {(pair idx, case idx): verdict} for the non-zero verdicts, and {pair idx: in_guard};
     gen (a dict) receives {pair idx: gen_verdict} (Corr.gen_report: 0 outside gen_guard, 1 inside and safe, 2 inconsistent)"""
     shards, cur, n = [], [], 0
@@ -380,7 +380,7 @@ def coq_verdicts(run, pairs, tag="mc", shard_cases=250, par=6, extra_defs="", fn
                 terms.append(coq_case(p, c))
         guards = "Definition G := Eval vm_compute in [%s].\nPrint G.\n" % "; ".join(
             "(%d%%N, if %s (ps_env PS%d) (ps_fuel PS%d) (ps_jobs PS%d) then 1%%N else 0%%N)" % (
-                p.idx, ("pair_guard_w (ps_way PS%d)" % p.idx) if guard == "pair_guard" else guard, p.idx, p.idx, p.idx)
+                p.idx, ("%s_w (ps_way PS%d)" % (guard, p.idx)) if guard in ("pair_guard", "pair_guard15") else guard, p.idx, p.idx, p.idx)
             for p in ps)
         ways = "Definition W := Eval vm_compute in way_mismatches [%s].\nPrint W.\n" % "; ".join(
             "(%d%%N, PS%d, %s, %s)" % (p.idx, p.idx, "true" if p.methods[0] else "false", "true" if p.methods[1] else "false")
@@ -389,6 +389,9 @@ def coq_verdicts(run, pairs, tag="mc", shard_cases=250, par=6, extra_defs="", fn
                 "Definition M := Eval vm_compute in %s cases.\nPrint M.\n%s%s" % (";\n".join(terms), fn, guards, ways))
         if cert is not None:
             body += "Definition UC := Eval vm_compute in uncertified cases.\nPrint UC.\n"
+        if masks is not None:
+            body += "Definition GMASK := Eval vm_compute in guard15_report [%s].\nPrint GMASK.\n" % "; ".join(
+                "(%d%%N, PS%d)" % (p.idx, p.idx) for p in ps)
         if gen is not None:
             body += "Definition GENR := Eval vm_compute in gen_report [%s].\nPrint GENR.\n" % "; ".join(
                 "(%d%%N, PS%d)" % (p.idx, p.idx) for p in ps)
@@ -397,6 +400,8 @@ def coq_verdicts(run, pairs, tag="mc", shard_cases=250, par=6, extra_defs="", fn
         if cert is not None:
             cert.extend(index[i] for i, _ in lib.parse_coq_list_pairs(out, "UC"))
         g = {i: bool(v) for i, v in lib.parse_coq_list_pairs(out, "G")}
+        if masks is not None:
+            masks.update({i: v for i, v in lib.parse_coq_list_pairs(out, "GMASK")})
         if gen is not None:
             gen.update({i: v for i, v in lib.parse_coq_list_pairs(out, "GENR")})
         for i, v in lib.parse_coq_list_pairs(out, "W"):
